@@ -450,6 +450,9 @@ func parseRevID(revid string) (int, string, error) {
 		return -1, "", fmt.Errorf("parseRevID unexpected generation in rev %q: %s", revid, err)
 	} else if gen < 1 {
 		return -1, "", fmt.Errorf("parseRevID unexpected generation in rev %q", revid)
+	} else if strconv.Itoa(gen) != revid[:idx] {
+		// "01-abc" and "+1-abc" would compare equal to "1-abc" while being distinct revision tree keys
+		return -1, "", fmt.Errorf("parseRevID non-canonical generation in rev %q", revid)
 	}
 
 	return gen, revid[idx+1:], nil
